@@ -30,6 +30,26 @@ def _open(name, mode='r', *a, **k):
 C.open = _open
 
 
+def _content(name):
+    """bytes of the file as the code under test left it: the in-memory layer, or -- if the code bypassed `open` -- the
+    real file in the scratch working directory"""
+    import os
+    if name in _FILES:
+        return _FILES[name]
+    if os.path.exists(name):
+        with io.open(name, 'rb') as f:
+            return f.read()
+    raise FileNotFoundError(name)
+
+
+def _reset():
+    import os
+    _FILES.clear()
+    for n in ('f', 'g', 'h', 'e'):
+        if os.path.exists(n):
+            os.remove(n)
+
+
 def _same(a, b):
     if type(a) is not type(b):
         return False
@@ -51,10 +71,10 @@ def cond_roundtrip_leaves(a: Leaf, b: Leaf) -> bool:
     pre: _small(a, 2) and _small(b, 2)
     post: _
     """
-    _FILES.clear()
+    _reset()
     v = {'signatures': {}, 'signed': {'x': a, 'l': [b]}}
     C.write_metadata_to_file(v, 'f')
-    raw = _FILES['f']
+    raw = _content('f')
     back = C.load_metadata_from_file('f')
     return raw == C.canonserialize(v) and _same(back, v) and C.canonserialize(back) == raw
 
@@ -64,11 +84,11 @@ def cond_roundtrip_whole_floats(i: int) -> bool:
     pre: -10**15 < i < 10**15
     post: _
     """
-    _FILES.clear()
+    _reset()
     v = {'threshold': float(i), 'version': i}
     C.write_metadata_to_file(v, 'g')
     back = C.load_metadata_from_file('g')
-    return _same(back, v) and C.canonserialize(back) == _FILES['g']
+    return _same(back, v) and C.canonserialize(back) == _content('g')
 
 
 def cond_overwrite_equal_but_different(i: int) -> bool:
@@ -76,8 +96,32 @@ def cond_overwrite_equal_but_different(i: int) -> bool:
     pre: 0 <= i <= 3
     post: _
     """
-    _FILES.clear()
+    _reset()
     C.write_metadata_to_file({'threshold': float(i), 'final': bool(i)}, 'h')
     v2 = {'threshold': i, 'final': i}
     C.write_metadata_to_file(v2, 'h')
-    return _FILES['h'] == C.canonserialize(v2)
+    return _content('h') == C.canonserialize(v2)
+
+
+def cond_overwrite_longer_by_shorter(a: str, i: int) -> bool:
+    """
+    pre: len(a) <= 2 and 0 <= i <= 9
+    post: _
+    """
+    _reset()
+    C.write_metadata_to_file({'signatures': {}, 'signed': {'padding': 'x' * 40, 'a': a, 'n': [i, i, i]}}, 'h')
+    v2 = {'signed': i}
+    C.write_metadata_to_file(v2, 'h')
+    return _content('h') == C.canonserialize(v2) and C.load_metadata_from_file('h') == v2
+
+
+def cond_envelope_roundtrip_keeps_signature_map(k: str, a: Leaf) -> bool:
+    """
+    pre: len(k) <= 3 and _small(a, 1)
+    post: _
+    """
+    _reset()
+    v = {'signatures': {k: {'signature': 'ab' * 64}, 'AB' + k: {'signature': 'cd' * 64}}, 'signed': {'x': a}}
+    C.write_metadata_to_file(v, 'e')
+    back = C.load_metadata_from_file('e')
+    return _same(back, v) and C.canonserialize(back) == _content('e')
